@@ -234,56 +234,95 @@ theorem C08_ignore_list : Gen.ignoreBroadcastISORequest =
 /-! ## retry of refused product / configuration information -/
 
 /-- **C08_retry (product information, arming).** `SendProductInformation` hands the product information to
-`SendMsg`; when that reports failure the device's pending timer is armed `187 + 8·source` ms ahead, when it
-succeeds the timer is cleared (`armProd`). -/
+`SendMsg`; the device's pending data afterwards are `afterProd`: on failure the timer is armed `187 + 8·source` ms
+ahead and `HasPendingInformation` set, on success the timer is cleared and the flag recomputed from BOTH timers. -/
 theorem C08_retry_product_armed (n : Node) (i : Nat) (d : Dev) (x : DevX) (p : Product)
     (hd : n.st.devs[i]? = some d) (hx : n.ext[i]? = some x) (hp : resolveProd n.ext i = some p) :
     (sendProductInformation n i).2 = [⟨i, productMsg d p⟩] ∧
     (sendProductInformation n i).1.ext[i]? =
-      some { x with pendProd := armProd n.st (sendMsg n.st (productMsg d p) (some i)).2 d.source } := by
+      some (afterProd n.st (sendMsg n.st (productMsg d p) (some i)).2 d.source x) := by
   unfold sendProductInformation
   rw [hd, hp]
   exact ⟨rfl, finishProd_get _ _ _ _ _ hx⟩
 
-/-- **C08_retry (configuration information, arming).** The same with `187 + 10·source` ms. -/
+/-- **C08_retry (configuration information, arming).** The same with `187 + 10·source` ms (`afterConf`). -/
 theorem C08_retry_config_armed (n : Node) (i : Nat) (d : Dev) (x : DevX)
     (hd : n.st.devs[i]? = some d) (hx : n.ext[i]? = some x) :
     (sendConfigurationInformation n i).2 = [⟨i, confOrNak d n.conf⟩] ∧
     (sendConfigurationInformation n i).1.ext[i]? =
-      some { x with pendConf := armConf n.st (sendMsg n.st (confOrNak d n.conf) (some i)).2 d.source } := by
+      some (afterConf n.st (sendMsg n.st (confOrNak d n.conf) (some i)).2 d.source x) := by
   unfold sendConfigurationInformation
   rw [hd]
   exact ⟨rfl, finishConf_get _ _ _ _ _ hx⟩
 
-/-- the timer values: cleared after a successful send, `now + 187 + 8·source` (10·source) after a refused one -/
-theorem C08_retry_delays (s : St) (src : Nat) :
-    armProd s true src = Sched.disabled s.flavor ∧ armConf s true src = Sched.disabled s.flavor ∧
-    armProd s false src = Sched.fromNow s.flavor s.now (187 + src * 8) ∧
-    armConf s false src = Sched.fromNow s.flavor s.now (187 + src * 10) := ⟨rfl, rfl, rfl, rfl⟩
+/-- what `afterProd` / `afterConf` are: a refused send arms `now + 187 + 8·source` (10·source) and sets the flag, the
+other timer untouched; a successful send disables its own timer and leaves the flag equal to "the other timer is armed" -/
+theorem C08_retry_delays (s : St) (src : Nat) (x : DevX) :
+    ((afterProd s false src x).pendProd = Sched.fromNow s.flavor s.now (187 + src * 8) ∧
+     (afterProd s false src x).hasPending = true ∧ (afterProd s false src x).pendConf = x.pendConf) ∧
+    ((afterConf s false src x).pendConf = Sched.fromNow s.flavor s.now (187 + src * 10) ∧
+     (afterConf s false src x).hasPending = true ∧ (afterConf s false src x).pendProd = x.pendProd) ∧
+    ((afterProd s true src x).pendProd = Sched.disabled s.flavor ∧ (afterProd s true src x).pendConf = x.pendConf ∧
+     (afterProd s true src x).hasPending = x.pendConf.isEnabled s.flavor) ∧
+    ((afterConf s true src x).pendConf = Sched.disabled s.flavor ∧ (afterConf s true src x).pendProd = x.pendProd ∧
+     (afterConf s true src x).hasPending = x.pendProd.isEnabled s.flavor) := by
+  simp [afterProd, afterConf, updateHasPending, isEnabled_disabled]
 
 /-- **C08_retry (poll).** A later `ParseMessages` (its `SendPendingInformation` step) whose clock has reached the
 armed product-information timer hands the product information to `SendMsg` again, first thing for that device. -/
 theorem C08_retry_poll_product (n : Node) (i : Nat) (d : Dev) (x : DevX) (p : Product)
     (hd : n.st.devs[i]? = some d) (hx : n.ext[i]? = some x) (hp : resolveProd n.ext i = some p)
-    (hdue : x.pendProd.isTime n.st.flavor n.st.now = true) :
+    (hf : x.hasPending = true) (hdue : x.pendProd.isTime n.st.flavor n.st.now = true) :
     ∃ rest, (pendingDev n i).2 = ⟨i, productMsg d p⟩ :: rest := by
   unfold pendingDev
-  simp only [andThen, hx, hdue, ↓reduceIte, (C08_retry_product_armed n i d x p hd hx hp).1]
+  simp only [andThen, hx, hf, hdue, ↓reduceIte, (C08_retry_product_armed n i d x p hd hx hp).1]
   exact ⟨_, rfl⟩
 
 /-- The same for the configuration information (it follows the product information retry of that poll, if any). -/
 theorem C08_retry_poll_config (n : Node) (i : Nat) (d : Dev) (x : DevX)
-    (hd : n.st.devs[i]? = some d) (hx : n.ext[i]? = some x)
+    (hd : n.st.devs[i]? = some d) (hx : n.ext[i]? = some x) (hf : x.hasPending = true)
+    (h64 : n.st.flavor = .t64 → n.st.now < M64)
     (hdue : x.pendConf.isTime n.st.flavor n.st.now = true) :
     ∃ pre, (pendingDev n i).2 = pre ++ [⟨i, confOrNak d n.conf⟩] :=
-  pendingDev_conf n i d x hd hx hdue
+  pendingDev_conf n i d x hd hx hf h64 hdue
 
-/-- … and leaves the device alone while neither timer is due. -/
+/-- **C08_retry (both pending).** Product AND configuration information pending for the same device (both sends were
+refused): a poll between the two deadlines — the product information is due (`187+8·src`), the configuration
+information (`187+10·src`) is armed but not yet due — whatever `SendMsg` answers for the product information, leaves
+the configuration timer armed and `HasPendingInformation` set; hence ONE poll at or after the later deadline, in
+any later state `n'` of the node that carries these pending data, hands the configuration information to `SendMsg`.
+(This is where a `UpdateHasPendingInformation` that forgets the configuration timer loses the answer for good.) -/
+theorem C08_retry_both (n n' : Node) (i : Nat) (d' : Dev) (x : DevX) (hx : n.ext[i]? = some x)
+    (hf : x.hasPending = true) (hen : x.pendConf.isEnabled n.st.flavor = true)
+    (hnd : x.pendConf.isTime n.st.flavor n.st.now = false)
+    (hlater : n'.ext[i]? = (pendingDev n i).1.ext[i]?) (hd' : n'.st.devs[i]? = some d')
+    (h64 : n'.st.flavor = .t64 → n'.st.now < M64)
+    (hdue : x.pendConf.isTime n'.st.flavor n'.st.now = true) :
+    (∃ x', (pendingDev n i).1.ext[i]? = some x' ∧ x'.pendConf = x.pendConf ∧ x'.hasPending = true) ∧
+    ∃ pre, (pendingDev n' i).2 = pre ++ [⟨i, confOrNak d' n'.conf⟩] := by
+  obtain ⟨x', h1, h2, h3⟩ := pendingDev_keeps_conf n i x hx hf hen hnd
+  refine ⟨⟨x', h1, h2, h3⟩, ?_⟩
+  rw [h1] at hlater
+  exact pendingDev_conf n' i d' x' hd' hlater h3 h64 (by rw [h2]; exact hdue)
+
+/-- the flag is exact after every send attempt: it is set iff one of the two timers is armed (so a set timer is
+never hidden from `SendPendingInformation`); 64-bit scheduler: the armed time is not the all-ones sentinel -/
+theorem C08_retry_flag_exact (s : St) (ok : Bool) (src : Nat) (x : DevX)
+    (h64 : s.flavor = .t64 → s.now + (187 + src * 10) < M64 - 1) :
+    FlagOk s.flavor (afterProd s ok src x) ∧ FlagOk s.flavor (afterConf s ok src x) :=
+  ⟨flagOk_afterProd s ok src x (fun h => by have := h64 h; omega), flagOk_afterConf s ok src x h64⟩
+
+/-- … a device without the flag, or with neither timer due, is left alone. -/
 theorem C08_retry_poll_idle (n : Node) (i : Nat) (x : DevX) (hx : n.ext[i]? = some x)
-    (h1 : x.pendProd.isTime n.st.flavor n.st.now = false) (h2 : x.pendConf.isTime n.st.flavor n.st.now = false) :
+    (h : x.hasPending = false ∨
+      (x.pendProd.isTime n.st.flavor n.st.now = false ∧ x.pendConf.isTime n.st.flavor n.st.now = false)) :
     pendingDev n i = (n, []) := by
   unfold pendingDev
-  simp [andThen, hx, h1, h2]
+  rcases h with h | ⟨h1, h2⟩
+  · simp [hx, h]
+  · by_cases hf : x.hasPending = true
+    · simp [andThen, hx, hf, h1, h2]
+    · simp [hx, hf]
 
 /-- when the armed timer is due, 64-bit scheduler: strictly after `now + delay` -/
 theorem C08_retry_due_t64 (now delay now' : Nat) (h : now + delay < M64) :
